@@ -89,6 +89,7 @@ type vVMSpec struct {
 	Type   string                 // "" => JsonWebKey2020 ; "-" => omitted
 	Ctrl   string                 // "" => doc id ; "-" => omitted
 	RawJwk map[string]interface{} // overrides Key (for unparseable JWK)
+	JwkKid string                 // a "kid" member inside publicKeyJwk
 }
 
 type vSvcSpec struct {
@@ -132,7 +133,15 @@ func (v vVMSpec) json(docID string) map[string]interface{} {
 	if v.RawJwk != nil {
 		m["publicKeyJwk"] = v.RawJwk
 	} else if v.Key != nil {
-		m["publicKeyJwk"] = v.Key.pubM
+		if v.JwkKid != "" {
+			j := map[string]interface{}{"kid": v.JwkKid}
+			for k, x := range v.Key.pubM {
+				j[k] = x
+			}
+			m["publicKeyJwk"] = j
+		} else {
+			m["publicKeyJwk"] = v.Key.pubM
+		}
 	}
 	return m
 }
@@ -1174,7 +1183,7 @@ func vDeactivate(s *vDocSpec) {
 var vViolations = []string{"no-did-context", "vm-no-fragment", "vm-duplicate-id", "vm-foreign-prefix", "vm-thumbprint-mismatch", "vm-bad-jwk",
 	"vm-blank-type", "vm-no-controller", "svc-no-fragment", "svc-duplicate-id", "svc-foreign-prefix", "svc-duplicate-type", "svc-blank-type",
 	"svc-no-endpoint", "svc-number-endpoint", "rel-unknown-reference", "rel-embedded-blank-type", "not-json",
-	"vm-no-jwk", "vm-empty-key-fragment", "ctx-only-object"}
+	"vm-no-jwk", "vm-empty-key-fragment", "ctx-only-object", "vm-kid-in-jwk", "vm-keyswap-known-id", "vm-known-id-other-did"}
 
 func (g *vGen) violate(which string, s *vDocSpec) {
 	other := "did:nuts:" + g.keys[0].b58
@@ -1233,6 +1242,21 @@ func (g *vGen) violate(which string, s *vDocSpec) {
 	case "vm-empty-key-fragment":
 		k := g.freshKey()
 		s.VMs = append(s.VMs, vVMSpec{ID: s.ID + "#", Key: k})
+	case "vm-kid-in-jwk": // the JWK carries its own "kid" equal to the (arbitrary) fragment
+		k := g.freshKey()
+		frag := "named-" + k.b64[:8]
+		s.VMs = append(s.VMs, vVMSpec{ID: s.ID + "#" + frag, Key: k, JwkKid: frag})
+	case "vm-keyswap-known-id": // an id that already passed validation now carries the key material of another key
+		if len(s.VMs) > 0 {
+			i := g.rng.Intn(len(s.VMs))
+			s.VMs[i].Key = g.freshKey()
+		}
+	case "vm-known-id-other-did": // an id of another, already accepted document with other key material
+		if o := g.someDid(func(d *vDid) bool { return d.latest().spec.ID != s.ID && len(d.latest().spec.VMs) > 0 }); o != nil {
+			s.VMs = append(s.VMs, vVMSpec{ID: o.latest().spec.VMs[0].ID, Key: g.freshKey(), Ctrl: o.latest().spec.ID})
+		} else {
+			s.VMs = append(s.VMs, vVMSpec{ID: other + "#" + g.freshKey().b64, Key: g.freshKey()})
+		}
 	case "ctx-only-object": // the DID context is present only inside an object (JSON-LD graph): not counted by go-did
 		s.RawAdd = map[string]interface{}{"@context": []interface{}{map[string]interface{}{"@base": vDidCtx}, vJwsCtx}}
 	}
@@ -1691,6 +1715,73 @@ func vScenario(g *vGen, kind string, run func(p *vPair) bool) {
 		run(g.update(vUpdateOpts{kind: "rk:update-removed-key", target: d, next: g.randomEdit, signer: func() (*vKey, string, []hash.SHA256Hash) { return gone.Key, gone.ID, nil }}))
 		// ... and an update that forks from the version that still listed it (authorised by design, merged as a conflict)
 		run(g.update(vUpdateOpts{kind: "rk:fork-from-listing-version", target: d, from: &v0, next: g.randomEdit, signer: func() (*vKey, string, []hash.SHA256Hash) { return gone.Key, gone.ID, nil }}))
+	case kind == "handed-over":
+		// A was handed over to B (controller=[B]) but still lists its own key a for capabilityInvocation; the same key a
+		// is also published by a self-controlled DID E, so that a transaction signed by a has a resolvable kid
+		a := g.freshKey()
+		run(g.create("ho:create-E", nil, func(s *vDocSpec, _ *vKey) {
+			s.VMs = append(s.VMs, vVMSpec{ID: s.ID + "#" + a.b64, Key: a})
+			s.Rels["assertionMethod"] = append(s.Rels["assertionMethod"], s.ID+"#"+a.b64)
+		}, nil))
+		e := g.dids[g.order[len(g.order)-1]]
+		run(g.create("ho:create-B", nil, nil, nil))
+		b := g.dids[g.order[len(g.order)-1]]
+		specA := vBasicDoc(a)
+		specA.Ctrl = []string{b.latest().spec.ID}
+		if !run(g.emit("ho:create-A", specA.payload(), vSignSpec{key: a, kid: a.did + "#" + a.b64, attach: a, clock: 0}, func(ok bool, tx dag.Transaction) {
+			if ok {
+				g.dids[specA.ID] = &vDid{key: a, versions: []vVersion{{spec: specA.clone(), ref: tx.Ref(), clock: tx.Clock(), time: tx.SigningTime().Unix()}}}
+				g.order = append(g.order, specA.ID)
+			}
+		})) {
+			return
+		}
+		ad := g.dids[specA.ID]
+		if g.rng.Intn(2) == 0 { // the real controller updates first (keeps controller and A's own key)
+			run(g.update(vUpdateOpts{kind: "ho:update-by-controller", target: ad, next: func(s *vDocSpec) {
+				s.Svcs = append(s.Svcs, vSvcSpec{ID: s.ID + "#svc-ho", Type: "type-ho", Endpoint: "https://example.com/ho"})
+			}}))
+		}
+		// the former owner signs with the retained key (kid published by E): takes the DID back / plain edit
+		for i := 0; i < 2; i++ {
+			takeBack := i == 0
+			run(g.update(vUpdateOpts{kind: "ho:update-by-retained-own-key", target: ad, next: func(s *vDocSpec) {
+				if takeBack {
+					s.Ctrl = nil
+				} else {
+					g.randomEdit(s)
+				}
+			}, signer: func() (*vKey, string, []hash.SHA256Hash) {
+				return a, e.latest().spec.ID + "#" + a.b64, []hash.SHA256Hash{e.latest().ref}
+			}}))
+		}
+	case kind == "key-swap":
+		// an id that was accepted with key K later carries the key material of K'
+		run(g.create("ks:create", nil, func(s *vDocSpec, k *vKey) {
+			k2 := g.freshKey()
+			id := s.ID + "#" + k2.b64
+			s.VMs = append(s.VMs, vVMSpec{ID: id, Key: k2})
+			s.Rels["capabilityInvocation"] = append(s.Rels["capabilityInvocation"], id)
+		}, nil))
+		d := g.dids[g.order[len(g.order)-1]]
+		if d == nil || d.latest() == nil {
+			return
+		}
+		ci := d.latest().spec.capInvKeys()
+		kp := g.freshKey()
+		swapped := ci[0].ID
+		run(g.update(vUpdateOpts{kind: "ks:swap-key-under-known-id", target: d, signer: func() (*vKey, string, []hash.SHA256Hash) { return ci[1].Key, ci[1].ID, nil },
+			next: func(s *vDocSpec) {
+				for i := range s.VMs {
+					if s.VMs[i].ID == swapped {
+						s.VMs[i].Key = kp
+					}
+				}
+			}}))
+		// K' acts under the name of K: deactivation
+		run(g.update(vUpdateOpts{kind: "ks:deactivate-by-swapped-key", target: d, next: vDeactivate, signer: func() (*vKey, string, []hash.SHA256Hash) { return kp, swapped, nil }}))
+		// the same id inside another DID's document
+		run(g.create("violate:vm-known-id-other-did", nil, func(s *vDocSpec, _ *vKey) { g.violate("vm-known-id-other-did", s) }, nil))
 	case kind == "embedded-capinv":
 		run(g.create("ec:create-other", nil, nil, nil))
 		run(g.create("ec:create", nil, nil, nil))
@@ -1792,7 +1883,7 @@ func TestVerifC09(t *testing.T) {
 	}
 	rng := rand.New(rand.NewSource(seed*7919 + 9))
 	scripted := []string{"chain0", "chain1", "chain2", "chain3", "chain4", "chain5", "chain6", "cycle1", "cycle2", "cycle3", "cycle5",
-		"deactivated-controller", "removed-key", "validator-sweep", "embedded-capinv"}
+		"deactivated-controller", "removed-key", "validator-sweep", "embedded-capinv", "handed-over", "key-swap"}
 	for h := 0; h < nHist; h++ {
 		kind := "mixed"
 		if h%2 == 0 {
@@ -1803,7 +1894,7 @@ func TestVerifC09(t *testing.T) {
 			steps = 16 + rng.Intn(18) // longer histories: deeper version chains, more forks and merges
 		}
 		if kind == "validator-sweep" {
-			steps = 24
+			steps = 28
 		}
 		r.genHistory(h, rand.New(rand.NewSource(rng.Int63())), steps, kind, rng.Intn(2) == 0)
 	}
